@@ -15,9 +15,14 @@ All theorems hold for EVERY history of protocol operations and EVERY configurati
 * `rx_view_disjoint`, `rw_view_disjoint`, `views_never_cross`, `views_alias_same_cell`: with explicit base addresses of the two
   mappings (`Layout`, OS behaviour = hypothesis `LayoutOK`), distinct live spans are disjoint in each view and across the views, and
   byte `o` of a span addressed through rx and through rw is the same memory cell.
+* `block_sizes_bounded`, `block_size_arithmetic_exact`, `request_arithmetic_exact`, `shrink_arithmetic`: the `size_t` / `uint32_t`
+  expressions of jitallocator.cpp (Lemmas/JitAllocWord.lean, wrap-around and truncation explicit) equal the model's unbounded
+  arithmetic in every reachable state — except the narrowing of `new_size` in `shrink` (defect C09-9, repaired test proved exact) and
+  the alignment of a request within one granule of 2^64 (C09-10, error code only).
 -/
 import AsmjitVerif.Props.C09
 import AsmjitVerif.Lemmas.JitAllocViews
+import AsmjitVerif.Lemmas.JitAllocWordInv
 namespace AsmjitVerif.JitAlloc
 
 /-- reachable from a freshly constructed allocator of any configuration the constructor can build -/
@@ -189,6 +194,70 @@ theorem views_alias_same_cell {s : St} (hR : ReachableC s) {L : Layout} (hL : La
     viewCell L.rx s.a.blocks (L.rxAddr hd + o) = some (hd.blk, hd.off + o) ∧
     viewCell L.rw s.a.blocks (L.rwAddr hd + o) = some (hd.blk, hd.off + o) :=
   views_alias (good_all_histories hR) hL e l ho
+
+/-! ### machine arithmetic (size_t = 64 bit, uint32_t) -/
+
+/-- **No block is larger than 2^31 + 2^29 bytes** (requests are at most 2^31 - 1 bytes, base block sizes at most 2^28, doubling stops
+at 64 MiB): the `uint32_t` area sizes, bit-word counts and byte products of jitallocator.cpp never overflow. -/
+theorem block_sizes_bounded {s : St} (hR : ReachableC s) : ∀ b ∈ s.a.blocks, b.blockSize ≤ 2684354560 := by
+  obtain ⟨o, g, b, p, ops, rfl⟩ := hR
+  have := lift_final (Q := fun s => CfgBnd s.a.cfg ∧ ABnd s.a)
+    (fun s s' l hI h t => ⟨by rw [t.cfg]; exact h.1, ABnd.trans hI h.1 h.2 t⟩)
+    (Inv.init _ (mkConfig_wf o g b p)) ⟨mkConfig_bnd o g b p, by intro x hx; simp [St.init, Alloc.init] at hx⟩ ops
+  exact this.2
+
+theorem reachable_cfg_bnd {s : St} (hR : ReachableC s) : CfgBnd s.a.cfg := by
+  obtain ⟨o, g, b, p, ops, rfl⟩ := hR
+  have := lift_final (Q := fun s => CfgBnd s.a.cfg) (fun s s' l hI h t => by rw [t.cfg]; exact h)
+    (Inv.init _ (mkConfig_wf o g b p)) (mkConfig_bnd o g b p) ops
+  exact this
+
+/-- **The block-size computation is exact in 64 bits**: in every reachable state, for every request `alloc` lets through, the
+`size_t` computation of `JitAllocator_calculate_ideal_block_size` (with its overflow exits and wrap-around, `Word.ideal64`) returns
+the model's value, which is again within the bound, and `JitAllocator_new_block` narrows its area size to `uint32_t` without loss. -/
+theorem block_size_arithmetic_exact {s : St} (hR : ReachableC s) {p size : Nat} (hp : p < s.a.cfg.poolCount) (hs : size ≤ 2147483647) :
+    Word.ideal64 (lastSize s.a p) s.a.cfg.blockSize s.a.cfg.noPad (s.a.cfg.poolGran p) size = idealBlockSize s.a p size ∧
+    idealBlockSize s.a p size ≤ 2684354560 ∧
+    Word.areaOfBytes32 (idealBlockSize s.a p size) (s.a.cfg.poolGran p) =
+      (idealBlockSize s.a p size + s.a.cfg.poolGran p - 1) / s.a.cfg.poolGran p := by
+  have hc := reachable_cfg_bnd hR
+  obtain ⟨h1, h2⟩ := ideal_word_exact hc (block_sizes_bounded hR) hp hs
+  exact ⟨h1, h2, (Word.new_block_area_exact (poolGran_pos (good_all_histories hR).inv.wf p) (hc.2.2 p hp) h2).1⟩
+
+/-- **The request test of `alloc` is exact** unless the request lies within one granule of 2^64 (there the aligned size wraps to 0
+and the pinned code answers kInvalidArgument instead of kTooLarge: `Word.alloc_check_wraps`, finding C09-10), and the area of an
+accepted request is narrowed to `uint32_t` without loss. -/
+theorem request_arithmetic_exact {s : St} (hR : ReachableC s) (req : Nat) (h : req + s.a.cfg.gran ≤ 18446744073709551616) :
+    Word.allocCheck req s.a.cfg.gran = Word.allocCheckModel req s.a.cfg.gran ∧
+    ∀ p size, p < s.a.cfg.poolCount → size ≤ 2147483648 →
+      Word.areaOfBytes32 size (s.a.cfg.poolGran p) = (size + s.a.cfg.poolGran p - 1) / s.a.cfg.poolGran p := by
+  have hG := good_all_histories hR
+  refine ⟨Word.alloc_check_exact hG.inv.wf.1 h, ?_⟩
+  intro p size hp hs
+  exact Word.area_exact (poolGran_pos hG.inv.wf p) hs ((reachable_cfg_bnd hR).2.2 p hp)
+
+/-- **`shrink`: the pinned narrowing is wrong, the repaired test is exact.**  `uint32_t area_shrunk_size =
+area_size_from_byte_size(new_size)` maps 2^38 (and 2^64 - 1) to 0 granules, so a request to ENLARGE a span passed the test
+`area_shrunk_size > area_prev_size` and freed the span while the caller still held it (defect C09-9, replayed on the real code);
+the repaired test `new_size > span_prev_size` rejects exactly what the model rejects for EVERY `new_size`, and whatever passes is
+narrowed without loss. -/
+theorem shrink_arithmetic {s : St} (hR : ReachableC s) {b : Block} (hb : b ∈ s.a.blocks) {st n : Nat}
+    (hS : Spans s.tab b.id (s.a.cfg.poolGran b.pool) st n) (newSize : Nat) :
+    (newSize > n * s.a.cfg.poolGran b.pool ↔ (newSize + s.a.cfg.poolGran b.pool - 1) / s.a.cfg.poolGran b.pool > n) ∧
+    (¬ newSize > n * s.a.cfg.poolGran b.pool →
+      Word.areaOfBytes32 newSize (s.a.cfg.poolGran b.pool) = (newSize + s.a.cfg.poolGran b.pool - 1) / s.a.cfg.poolGran b.pool) ∧
+    (Word.areaOfBytes32 274877906944 64 = 0 ∧ (274877906944 + 64 - 1) / 64 = 4294967296) := by
+  have hG := good_all_histories hR
+  have hg := poolGran_pos hG.inv.wf b.pool
+  have hd := hG.div b hb
+  obtain ⟨_, _, i3⟩ := (hG.inv.blk b hb).1.inside st n hS
+  have hbs := block_sizes_bounded hR b hb
+  have hlt : n * s.a.cfg.poolGran b.pool < 4294967296 := by
+    have : n * s.a.cfg.poolGran b.pool ≤ b.areaSize * s.a.cfg.poolGran b.pool := Nat.mul_le_mul_right _ (by omega)
+    rw [hd.area] at this
+    omega
+  obtain ⟨g1, g2⟩ := Word.shrink_guard_exact (newSize := newSize) hg ((reachable_cfg_bnd hR).2.2 b.pool hd.pool) hlt
+  exact ⟨g1, g2, Word.shrink_area_truncates.1, Word.shrink_area_truncates.2.1⟩
 
 /-! ### non-vacuity -/
 
